@@ -150,6 +150,10 @@ static void op_c12_cmd(Exec& x, const Json& op, int)
 				}
 				// a file renamed to .unrecoverable
 				if (!ok && ends_with(p, ".unrecoverable") && fixed_files.count(p.substr(0, p.size() - 14))) ok = true;
+				// ... and back: a fix that comes to a missing file whose .unrecoverable remains of an earlier attempt exist renames
+				// them back before it works on the file (also when this run ends before it can report the file: -B, interruption)
+				if (!ok && kv.second == "added" && before.count(p + ".unrecoverable") && !after.count(p + ".unrecoverable")) { ok = true; x.probe("c12.unrecoverable_renamed_back"); }
+				if (!ok && kv.second == "removed" && ends_with(p, ".unrecoverable") && after.count(p.substr(0, p.size() - 14)) && !before.count(p.substr(0, p.size() - 14))) ok = true;
 			}
 		}
 		if (!ok) x.violation("C12", "footprint", cl + ": " + kv.second + " " + p);
@@ -167,10 +171,17 @@ static RunPlan gen_footprint(uint64_t seed, int tier)
 	for (auto& o : gen_populate(rng, p.cfg, 1, 5)) p.ops.push_back(o);
 	// zero sub-second stamps for touch
 	for (int i = 0; i < 2; ++i) { Json c = op_create(rng, p.cfg, -1, true); c.set("zns", 1); c.set("name", strf("zns%d", i)); p.ops.push_back(c); }
+	// links are part of the recorded state
+	if (rng.chance(1, 2)) {
+		int64_t d = (int64_t)rng.below(p.cfg.disks.size());
+		p.ops.push_back(Json::obj().set("k", "symlink").set("d", d).set("name", "links/sym").set("target", rng.chance(1, 2) ? "../zns0" : "nowhere"));
+		p.ops.push_back(Json::obj().set("k", "hardlink").set("d", d).set("f", (int64_t)rng.below(8)).set("name", "links/hard"));
+	}
 	CmdSpec base;
 	base.cmd = "sync";
 	base = gen_sched(rng, base);
 	p.ops.push_back(op_cmd(base, "ok"));
+	if (rng.chance(1, 3)) p.ops.push_back(Json::obj().set("k", "c12_break_links").set("seed", rng.next() >> 1));
 	int state = (int)rng.below(4); // healthy, unsynced, damaged, partially lost
 	bool damaged = false;
 	if (state == 1) for (auto& o : gen_mutations(rng, p.cfg, (int)rng.range(1, 6))) p.ops.push_back(o);
@@ -206,6 +217,32 @@ static RunPlan gen_footprint(uint64_t seed, int tier)
 	return p;
 }
 
+// recorded links differ on disk: a symlink re-pointed or deleted, a hard link deleted or replaced by an independent copy
+static void op_c12_break_links(Exec& x, const Json& op, int)
+{
+	std::vector<LoadedContent> cs = load_contents(x.sb);
+	const LoadedContent* lc = first_good(cs);
+	if (!lc) return;
+	Rng r((uint64_t)op.num("seed"));
+	for (auto& l : lc->c.links) {
+		const DiskCfg* d = x.sb.disk(lc->c.maps[l.map_idx].name);
+		if (!d || r.chance(1, 3)) continue;
+		std::string rel = d->top + "/" + l.sub;
+		if (!x.sb.exists(rel)) continue;
+		if (!l.hard) {
+			if (r.chance(1, 2)) x.sb.remove_path(rel);
+			else x.sb.make_symlink(rel, "elsewhere/" + l.to);
+			x.probe("c12.symlink_broken");
+		} else {
+			Bytes b;
+			bool have = x.sb.get_file(rel, b);
+			x.sb.remove_path(rel);
+			if (have && r.chance(1, 2)) { int64_t s, ns; x.sb.next_stamp(s, ns); x.sb.put_file(rel, b, s, ns, true); }
+			x.probe("c12.hardlink_broken");
+		}
+	}
+}
+
 static void op_c12_note(Exec& x, const Json&, int)
 {
 	x.out.nontrivial = true;
@@ -216,6 +253,7 @@ static struct RegFootprint {
 	{
 		Exec::register_op("c12_cmd", op_c12_cmd);
 		Exec::register_op("c12_note", op_c12_note);
+		Exec::register_op("c12_break_links", op_c12_break_links);
 		Family f;
 		f.name = "footprint";
 		f.prop = "C12";
